@@ -798,6 +798,94 @@ fn cmd_c10(n: usize) -> (u64, Vec<String>) {
     (cases, bad)
 }
 
+// ------------------------------------------------------------------------------------------------ generated tests (C09)
+/// BOUNDED: for every output over a small alphabet up to `n` bytes (plus a structured family of lines that look like test syntax), exit
+/// codes 0 and 3, both formats, both escapers: `create` (a test case without expectations validated against the output, then generated)
+/// gives a document that parses back to ONE test case with the same command which passes against that same output.
+/// Violations are classed by what the colliding output line looks like (the class is the clause id `bounded.c09.<class>`).
+fn cmd_c09(n: usize) -> (u64, Vec<String>) {
+    use scrut::generators::cram::CramTestCaseGenerator;
+    use scrut::generators::generator::TestCaseGenerator;
+    use scrut::generators::markdown::MarkdownTestCaseGenerator;
+    use scrut::outcome::Outcome;
+    use scrut::parsers::cram::CramParser;
+    use scrut::parsers::markdown::{MarkdownParser, DEFAULT_MARKDOWN_LANGUAGES};
+    use scrut::parsers::parser::{Parser, ParserType};
+    let alphabet: Vec<u8> = b"a (?)\n\t".to_vec();
+    let mut outputs: Vec<Vec<u8>> = vec![];
+    for special in ["[1]", "[12]", "$ x", "> x", "x\n> y", "```", "````", "# c", "foo (?)", "foo (re)", "foo ()", "foo (escaped)", "foo (no-eol)", "a\tb", "\u{e9} (*)", "  indented", "", " ", "x (equal)",
+                    "\\", "a\\tb", "[a]", "[1] x", "$x", ">x", "---", "x  ", "\u{1b}[1mbold", "\u{feff}x"] {
+        for tail in ["\n", "", "\nz\n", "\nz"] {
+            outputs.push(format!("{special}{tail}").into_bytes());
+            outputs.push(format!("z\n{special}{tail}").into_bytes());
+        }
+    }
+    let mut idx: Vec<usize> = vec![];
+    loop {
+        let mut i = idx.len();
+        loop {
+            if i == 0 { idx = vec![0; idx.len() + 1]; break; }
+            i -= 1;
+            if idx[i] + 1 < alphabet.len() { idx[i] += 1; for j in i + 1..idx.len() { idx[j] = 0; } break; }
+        }
+        if idx.len() > n { break; }
+        outputs.push(idx.iter().map(|&i| alphabet[i]).collect());
+    }
+    let maker = std::sync::Arc::new(ExpectationMaker::new(RuleRegistry::default()));
+    std::panic::set_hook(Box::new(|_| {}));
+    let mut cases = 0u64;
+    let mut bad: Vec<String> = vec![];
+    let mut seen_class: BTreeMap<String, u32> = BTreeMap::new();
+    let class_of = |out: &[u8]| -> &'static str {
+        let text = String::from_utf8_lossy(out);
+        for l in text.lines() {
+            let is_code = l.len() > 2 && l.starts_with('[') && l.ends_with(']') && l[1..l.len() - 1].bytes().all(|b| b.is_ascii_digit());
+            if is_code { return "exit-code-line"; }
+            if l.starts_with("$ ") { return "command-line"; }
+            if l.starts_with("> ") { return "continuation-line"; }
+        }
+        "other"
+    };
+    for out in &outputs {
+        for code in [0i32, 3] {
+            for format in [ParserType::Markdown, ParserType::Cram] {
+                for escaping in [Escaper::Unicode, Escaper::Ascii] {
+                    cases += 1;
+                    let output = Output { stderr: "".into(), stdout: out.clone().into(), exit_code: ExitStatus::Code(code) };
+                    let testcase = TestCase { title: "t".into(), shell_expression: "cmd".into(), expectations: vec![], exit_code: None, line_number: 0, config: TestCaseConfig::empty() };
+                    let run = std::panic::catch_unwind(std::panic::AssertUnwindSafe(|| -> Result<(), String> {
+                        let result = testcase.validate(&output);
+                        let outcome = Outcome { location: None, output: output.clone(), testcase: testcase.clone(), format, escaping: escaping.clone(), result };
+                        let doc = match format {
+                            ParserType::Markdown => MarkdownTestCaseGenerator::default().generate_testcases(&[&outcome]),
+                            ParserType::Cram => CramTestCaseGenerator::default().generate_testcases(&[&outcome]),
+                        }.map_err(|e| format!("generator fails: {e}"))?;
+                        let parsed = match format {
+                            ParserType::Markdown => MarkdownParser::new(maker.clone(), DEFAULT_MARKDOWN_LANGUAGES, None).parse(&doc),
+                            ParserType::Cram => CramParser::new(maker.clone(), 2).parse(&doc),
+                        }.map_err(|e| format!("generated document does not parse: {e}; document {doc:?}"))?;
+                        let tcs = parsed.1;
+                        if tcs.len() != 1 { return Err(format!("generated document has {} test cases; document {doc:?}", tcs.len())); }
+                        if tcs[0].shell_expression != "cmd" { return Err(format!("command read back as {:?}; document {doc:?}", tcs[0].shell_expression)); }
+                        tcs[0].validate(&output).map_err(|e| format!("generated test fails against its own output ({}); document {doc:?}", match e { TestCaseError::MalformedOutput(_) => "malformed output", TestCaseError::InvalidExitCode { .. } => "exit code", _ => "other" }))
+                    }));
+                    let why = match run { Err(_) => Some("panic".to_string()), Ok(Err(w)) => Some(w), Ok(Ok(())) => None };
+                    if let Some(w) = why {
+                        let class = class_of(out);
+                        let k = seen_class.entry(class.to_string()).or_insert(0);
+                        *k += 1;
+                        if *k <= 2 {
+                            bad.push(format!("{{\"class\":{},\"why\":{},\"output\":{},\"exit\":{code},\"format\":{},\"escaper\":{}}}", jstr(class),
+                                jstr(&format!("C09: {w}")), jstr(&String::from_utf8_lossy(out)), jstr(&format!("{format:?}")), jstr(&format!("{escaping:?}"))));
+                        }
+                    }
+                }
+            }
+        }
+    }
+    (cases, bad)
+}
+
 fn cmd_cram_probe() -> (u64, Vec<String>) {
     use scrut::parsers::cram::CramParser;
     use scrut::parsers::parser::Parser;
@@ -852,6 +940,7 @@ fn main() {
         "markdown" => cmd_markdown(),
         "cram-probe" => cmd_cram_probe(),
         "c10-probe" => cmd_c10_probe(),
+        "c09" => cmd_c09(args.get(2).and_then(|s| s.parse().ok()).unwrap_or(3)),
         "c10" => cmd_c10(args.get(2).and_then(|s| s.parse().ok()).unwrap_or(4)),
         "c08" => cmd_c08(args.get(2).and_then(|s| s.parse().ok()).unwrap_or(5)),
         "validate" => cmd_validate(),
